@@ -301,7 +301,7 @@ Qed.
 Lemma cwvl_step : forall f, S_cwvl f -> S_cwvl (S f).
 Proof.
   intros f IH L cid segs n w rn ok w' H He. cbn [conn_writev_loop] in He.
-  destruct (sys_wr cid (c_fd (wc w cid)) (List.concat (firstn 1024 segs)) true w) as [k w1] eqn:Hs.
+  destruct (sys_wr cid (c_fd (wc w cid)) (List.concat (firstn iov_max segs)) true w) as [k w1] eqn:Hs.
   pose proof (Inv_sys_wr L false (Popen cid) (pstable_Popen L cid) _ _ _ _ _ _ _ H Hs) as H1.
   destruct k as [sent extra|e|].
   - destruct (List.concat (drop_sent sent segs)) eqn:Hrest.
